@@ -364,6 +364,63 @@ _t(
 )
 T["T14"].modules["tq.zclash"] = {"a": clash_source(T["T14"])}
 
+# ---------------------------------------------------------------- T18: shapes for the exported graph - a function with a default-valued parameter kept
+# (without passing it) before a sibling and kept again by a later function; a chain of three keeps
+_T18 = '''
+V = 0
+
+
+def fa(n=3):
+    tick.hit("fa")
+    return ("a", n, V)
+
+
+def fb():
+    tick.hit("fb")
+    return ("b", V)
+
+
+def fp():
+    tick.hit("fp")
+    return ("p", dds.keep("/t18/a", fa), dds.keep("/t18/b", fb))
+
+
+def fq():
+    tick.hit("fq")
+    return ("q", dds.keep("/t18/a", fa))
+
+
+def top():
+    return ("top", dds.keep("/t18/p", fp), dds.keep("/t18/q", fq))
+
+
+def fx():
+    tick.hit("fx")
+    return ("x", V)
+
+
+def fm():
+    tick.hit("fm")
+    return ("m", dds.keep("/t18/x", fx))
+
+
+def fc():
+    tick.hit("fc")
+    return ("c", dds.keep("/t18/m", fm))
+
+
+def chain():
+    return ("chain", dds.keep("/t18/c", fc))
+'''
+_t(
+    "T18",
+    [PKG, ("tq.m1", {"a": HEAD + _T18})],
+    leaves=[("tq.m1", "V", "int", True)],
+    entry=("tq.m1", "top"),
+    kept=["/t18/a", "/t18/b", "/t18/p", "/t18/q"],
+)
+T["T18"].modules["tq.zclash"] = {"a": clash_source(T["T18"])}
+
 # ---------------------------------------------------------------- T9: dds.load placements
 _T9 = '''
 import pathlib
